@@ -13,15 +13,25 @@
   tied to the real core by the correspondence run (harness/props/c04: the real
   core behind the whole-core simulator, monitor Driver/OwnCommon).
 
-  Two statements do NOT hold of the code as it is; they are kept visible as
+  A state carries the configuration it runs under (`Own.Cfg`): `codeCfg` is the code
+  as it is, `legacyCfg` the code before the repairs notes/C04.fix-1, C06.fix-1 and C06.fix-2.
+  Theorems that do not depend on it are stated for every configuration.
+
+  One statement does NOT hold of the code as it is; it is kept visible as
   `…_full`, proved under the hypothesis that excludes the offending schedules,
   and refuted on a schedule that the real core was seen to follow:
     * detector exclusivity needs the detector check and the insertion not to
-      interleave with another creation's (finding create_race);
-    * with reuseUnlockedTasks a creation that claims a task for every one of its
-      roles kills the core process (finding reuse_full_claim_crash).
+      interleave with another creation's (finding create_race).
+  One statement did not hold and does now (finding reuse_full_claim_crash, fixed):
+    * with reuseUnlockedTasks a creation that claimed a task for every one of its
+      roles killed the core process: acquireTasks called deployMu.Unlock() outside the
+      block that takes the lock. `C04_no_crash_code` proves `C04_no_crash_full codeCfg`,
+      `C04_finding_reuse_full_claim_crash` refutes `C04_no_crash_full legacyCfg`, and
+      `C04_deployMu_is_code` ties `codeCfg.unlockUnpaired` to the go/ast fact read from
+      core/task/manager.go.
 -/
 import ControlModel.Proofs.Own
+import ControlModel.Gen.C04Facts
 
 open Own
 
@@ -33,20 +43,20 @@ open Own
     requests, destroys and cleanups, any oracles), with or without
     reuseUnlockedTasks, as long as acquireTasks' claim and commit are not
     separated by other steps (see `C04_claim_race_schedule`). -/
-theorem C04_inv (reuse : Bool) (hosts : List Host) (steps : List Step) (h : noClaimSteps steps = true) :
-    exclusiveTasks (viewOf (run (init reuse hosts) steps)) = true :=
-  exclusiveTasks_of_inv _ (inv_run _ steps h (inv_init reuse hosts))
+theorem C04_inv (reuse : Bool) (hosts : List Host) (c : Cfg) (steps : List Step) (h : noClaimSteps steps = true) :
+    exclusiveTasks (viewOf (run (init reuse hosts c) steps)) = true :=
+  exclusiveTasks_of_inv _ (inv_run _ steps h (inv_init reuse hosts c))
 
 /-- The structural invariant behind it (roster ids unique, task ids fresh, environment ids
     never reused, a live environment's tasks carry its id as parent, …). -/
-theorem C04_invariant (reuse : Bool) (hosts : List Host) (steps : List Step) (h : noClaimSteps steps = true) :
-    Inv (run (init reuse hosts) steps) :=
-  inv_run _ steps h (inv_init reuse hosts)
+theorem C04_invariant (reuse : Bool) (hosts : List Host) (c : Cfg) (steps : List Step) (h : noClaimSteps steps = true) :
+    Inv (run (init reuse hosts c) steps) :=
+  inv_run _ steps h (inv_init reuse hosts c)
 
 /-- **Every KILL call names a task that has no owner at that instant**: whatever
     the schedule (claim steps included), every entry of the kill log carries owner `none`. -/
-theorem C04_kill_only_unlocked (reuse : Bool) (hosts : List Host) (steps : List Step) :
-    ∀ e ∈ (run (init reuse hosts) steps).killLog, e.2 = none :=
+theorem C04_kill_only_unlocked (reuse : Bool) (hosts : List Host) (c : Cfg) (steps : List Step) :
+    ∀ e ∈ (run (init reuse hosts c) steps).killLog, e.2 = none :=
   killOk_run _ steps (by intro e he; simp [init] at he)
 
 /-- Cleanup and KillTasks never pick a locked task: the tasks they hand to doKillTasks are
@@ -132,16 +142,16 @@ theorem C04_create_conflict_inert (s : State) (k : EnvId) (spec : EnvSpec) (o : 
     rw [if_neg (by simpa [List.mem_map] using this)]
 
 /-- The full-strength detector claim: after any step sequence no detector is part of two listed environments. -/
-def C04_det_excl_full : Prop :=
-  ∀ (reuse : Bool) (hosts : List Host) (steps : List Step), exclusiveDets (viewOf (run (init reuse hosts) steps)) = true
+def C04_det_excl_full (c : Cfg) : Prop :=
+  ∀ (reuse : Bool) (hosts : List Host) (steps : List Step), exclusiveDets (viewOf (run (init reuse hosts c) steps)) = true
 
 /-- **No detector is part of two listed environments** after any step sequence in which every
     detector check-and-insert happens while no other creation sits between its detector
     snapshot and its own check (`overlapFree`: what holding one lock from the snapshot to the
     insertion would guarantee). -/
-theorem C04_det_excl_partial (reuse : Bool) (hosts : List Host) (steps : List Step)
-    (h : overlapFree (init reuse hosts) steps = true) :
-    exclusiveDets (viewOf (run (init reuse hosts) steps)) = true :=
+theorem C04_det_excl_partial (reuse : Bool) (hosts : List Host) (c : Cfg) (steps : List Step)
+    (h : overlapFree (init reuse hosts c) steps = true) :
+    exclusiveDets (viewOf (run (init reuse hosts c) steps)) = true :=
   exclusiveDets_of_detOk _ (det_run _ steps h (by intro a ha; simp [init] at ha) (by intro p hp; simp [init] at hp))
 
 /-- Two creations that need detector 0, on different hosts. -/
@@ -158,8 +168,8 @@ def raceSchedule : List Step :=
 /-- **Finding create_race**: CreateEnvironment reads the active detectors at its very
     beginning and enters the environment in the map much later, holding no lock in between:
     on `raceSchedule` both creations succeed and detector 0 is part of two listed
-    environments. -/
-theorem C04_finding_create_race : ¬ C04_det_excl_full := by
+    environments — in the code as it is. -/
+theorem C04_finding_create_race : ¬ C04_det_excl_full codeCfg := by
   intro h
   have := h false [1, 2, 3, 4] raceSchedule
   revert this
@@ -171,40 +181,33 @@ theorem C04_race_schedule_overlaps : overlapFree (init false [1, 2, 3, 4]) raceS
 /-! ## reuse of unlocked tasks -/
 
 /-- The full-strength claim about the process: no step sequence kills the core. -/
-def C04_no_crash_full : Prop :=
-  ∀ (reuse : Bool) (hosts : List Host) (steps : List Step), (run (init reuse hosts) steps).crashed = false
+def C04_no_crash_full (c : Cfg) : Prop :=
+  ∀ (reuse : Bool) (hosts : List Host) (steps : List Step), (run (init reuse hosts c) steps).crashed = false
 
-/-- Without reuseUnlockedTasks no step sequence kills the core. -/
-theorem C04_no_crash_partial (hosts : List Host) (steps : List Step) :
-    (run (init false hosts) steps).crashed = false := by
-  have key : ∀ (s : State), s.reuse = false → s.crashed = false → ∀ st, (step s st).1.reuse = false ∧ (step s st).1.crashed = false := by
-    intro s hr hc st
-    have hsub : ∀ s' : State, s'.reuse = s.reuse → s'.crashed = s.crashed → s'.reuse = false ∧ s'.crashed = false :=
-      fun s' a b => ⟨a.trans hr, b.trans hc⟩
-    unfold step
-    rw [hc]
-    simp only [Bool.false_eq_true, if_false]
-    cases st with
-    | createBegin k spec => simp only [createBegin]; split; exact ⟨hr, hc⟩; split <;> exact ⟨hr, hc⟩
-    | createCleanup k => simp only [createCleanup]; split <;> exact ⟨hr, hc⟩
-    | createInsert k =>
-      simp only [createInsert]; split; exact ⟨hr, hc⟩; split; exact ⟨hr, hc⟩; split <;> exact ⟨hr, hc⟩
-    | createClaim k => simp only [createClaim]; split <;> exact ⟨hr, hc⟩
-    | createSettle k o => exact crash_free_settle s k o hr hc
-    | control k ev fails pre => exact crash_free_control s k ev fails pre hr hc
-    | destroy k f a kp o => exact crash_free_destroy s k f a kp o hr hc
-    | cleanup => exact ⟨hr, hc⟩
-    | killIds ids => simp only [cleanupTasks]; split <;> exact ⟨hr, hc⟩
-    | mesosStart k => exact ⟨hr, hc⟩
-    | execLost h => exact ⟨hr, hc⟩
-    | agentLost h => exact ⟨hr, hc⟩
-    | watchError k fails => simp only [watchError]; split; exact ⟨hr, hc⟩; split <;> exact ⟨hr, hc⟩
-  have : ∀ (steps : List Step) (s : State), s.reuse = false → s.crashed = false → (run s steps).crashed = false := by
-    intro steps
-    induction steps with
-    | nil => intro s _ hc; exact hc
-    | cons st rest ih => intro s hr hc; exact ih _ (key s hr hc st).1 (key s hr hc st).2
-  exact this steps _ rfl rfl
+/-- **No step sequence kills the core** — the code as it is, with or without
+    reuseUnlockedTasks: acquireTasks unlocks deployMu inside the block that locks it, so a
+    deployment with nothing to run (every descriptor claimed) touches the mutex not at all. -/
+theorem C04_no_crash_code : C04_no_crash_full codeCfg := by
+  intro reuse hosts steps
+  exact (rc_run steps (init reuse hosts codeCfg) (Or.inr rfl)).2.1
+
+/-- Without reuseUnlockedTasks no step sequence kills the core, whatever the configuration. -/
+theorem C04_no_crash_partial (hosts : List Host) (c : Cfg) (steps : List Step) :
+    (run (init false hosts c) steps).crashed = false :=
+  (rc_run steps (init false hosts c) (Or.inl rfl)).2.1
+
+/-- The configuration and the flag never change in a run that does not crash (and `run` does
+    nothing after a crash): every state of a run is judged by the configuration it started in. -/
+theorem C04_cfg_constant (reuse : Bool) (hosts : List Host) (steps : List Step) :
+    (run (init reuse hosts codeCfg) steps).cfg = codeCfg ∧ (run (init reuse hosts codeCfg) steps).reuse = reuse :=
+  ⟨(rc_run steps (init reuse hosts codeCfg) (Or.inr rfl)).2.2, (rc_run steps (init reuse hosts codeCfg) (Or.inr rfl)).1⟩
+
+/-- **The model's acquireTasks is the code's**: go/ast of core/task/manager.go finds every
+    `m.deployMu.Lock()` of acquireTasks followed by its `m.deployMu.Unlock()` in the same
+    block, with no way out of the block in between, and no other Lock/Unlock of deployMu in
+    the function (`Gen.lockUnlockPaired`). Reverting notes/C04.fix-1.patch breaks this theorem. -/
+theorem C04_deployMu_is_code : codeCfg.unlockUnpaired = !Gen.lockUnlockPaired ∧
+    Gen.deployMuLocks = 1 ∧ Gen.deployMuUnlocks = 1 := by decide
 
 /-- An environment is destroyed with keepTasks while a second one, with the same task class on
     the same host, is between its pre-deployment cleanup and its acquireTasks. -/
@@ -217,20 +220,36 @@ def crashSchedule : List Step :=
    .destroy 0 false false true {},
    .createInsert 1, .createSettle 1 {}]
 
-/-- **Finding reuse_full_claim_crash**: with reuseUnlockedTasks, acquireTasks skips
-    `deployMu.Lock()` when every descriptor was satisfied by a claimed task, but not the
-    `deployMu.Unlock()` that follows: "fatal error: sync: unlock of unlocked mutex" ends the
-    core, and with it every environment. -/
-theorem C04_finding_reuse_full_claim_crash : ¬ C04_no_crash_full := by
+/-- **Finding reuse_full_claim_crash** (fixed; a statement about the code as it was): with
+    reuseUnlockedTasks, acquireTasks skipped `deployMu.Lock()` when every descriptor was
+    satisfied by a claimed task, but not the `deployMu.Unlock()` that followed: "fatal error:
+    sync: unlock of unlocked mutex" ended the core, and with it every environment. -/
+theorem C04_finding_reuse_full_claim_crash : ¬ C04_no_crash_full legacyCfg := by
   intro h
   have := h true [1, 2, 3, 4] crashSchedule
   revert this
   decide
 
+/-- On the same schedule the code as it is survives — and gives the creation up: the claimed
+    task got the new environment's role as parent, but the role never learns that its task is
+    ACTIVE (no status update comes for a task that is already running), DEPLOY times out, and the
+    failure tail releases and kills the task. Seen on the real core (scenario tag
+    `fixed-reuse-claim`): with reuseUnlockedTasks a creation that claims anything fails. -/
+theorem C04_full_claim_times_out :
+    (step (run (init true [1, 2, 3, 4]) (crashSchedule.take 9)) (.createSettle 1 {})).2 = .errDeploy ∧
+    (run (init true [1, 2, 3, 4]) crashSchedule).crashed = false ∧
+    (viewOf (run (init true [1, 2, 3, 4]) crashSchedule)).envs = [] ∧
+    (viewOf (run (init true [1, 2, 3, 4]) crashSchedule)).roster = [] ∧
+    (viewOf (run (init true [1, 2, 3, 4]) crashSchedule)).master =
+      [{ task := 1, label := 0, mesos := .terminal, killed := true }] := by decide
+
 /-- With the claim of acquireTasks run as a step of its own (it holds no lock), two creations
-    can claim the same unlocked task; both commit, and the task is referenced by two live
-    environments. Seen on the model only: the real core was not caught in this window
-    (the crash above ends such runs first when the claim is complete). -/
+    can claim the same unlocked task: after both claim steps both pending creations hold task 1.
+    Both commit (the second SetParent overwrites the first); in the model — where the wait for
+    the workflow to become ACTIVE is part of the settling step — each then times out at DEPLOY
+    and is torn down, so no snapshot shows the task under two environments; on the real core
+    the two environments are alive side by side, both referencing the task, for the length of
+    the deploy timeout. Seen on the model only: the real core was not caught in this window. -/
 def claimRaceSchedule : List Step :=
   [.createBegin 0 { bad := .ok, dets := [0], roles := [{ kind := .task, cls := 1, host := 1 }] },
    .createCleanup 0, .createInsert 0, .createSettle 0 {},
@@ -244,4 +263,8 @@ def claimRaceSchedule : List Step :=
    .createSettle 1 {}, .createSettle 2 {}]
 
 theorem C04_claim_race_schedule :
-    exclusiveTasks (viewOf (run (init true [1, 2, 3, 4]) claimRaceSchedule)) = false := by decide
+    (run (init true [1, 2, 3, 4]) (claimRaceSchedule.take 14)).creating.map (fun p => (p.id, p.claims)) =
+      [(2, some [(0, 1)]), (1, some [(0, 1)])] ∧
+    (step (run (init true [1, 2, 3, 4]) (claimRaceSchedule.take 14)) (.createSettle 1 {})).2 = .errDeploy ∧
+    (step (run (init true [1, 2, 3, 4]) (claimRaceSchedule.take 15)) (.createSettle 2 {})).2 = .errDeploy ∧
+    (viewOf (run (init true [1, 2, 3, 4]) claimRaceSchedule)).envs = [] := by decide
